@@ -219,9 +219,28 @@ def cross_style_pairs():
     return out
 
 
+SIBLING_CONTIGS = [
+    ("chrUn_gl000220", "chrUn_gl000221"),
+    ("chr1_gl000191_random", "chr1_gl000192_random"),
+    ("GL000192.1", "GL000193.1"),
+    ("scaffold_7", "scaffold_17"),
+]
+
+
+def sibling_contig_tables():
+    """Two unplaced contigs whose names differ only in their digits, with interleaved coordinates: each contig's rows
+    still have to come out as one block (sorted by start inside it)."""
+    out = []
+    for a, b in SIBLING_CONTIGS:
+        out.append([[a, 0, 10, "A"], [b, 5, 8, "-"], [a, 20, 30, "A,B"]])
+        out.append([[b, 20, 30, "A"], [a, 5, 8, "-"], [b, 0, 10, "x.y"], [a, 30, 40, "a-b"]])
+        out.append([["chr1", 0, 10, "A"], [b, 0, 10, "-"], [a, 5, 8, "A"], [b, 10, 20, "-"]])
+    return out
+
+
 def tables(tier):
     t = tier == "thorough"
-    out = one_row_tables(t) + two_row_tables() + three_row_tables(t)
+    out = one_row_tables(t) + two_row_tables() + sibling_contig_tables() + three_row_tables(t)
     if t:
         out += cross_style_pairs() + four_row_tables()
     return out
